@@ -12,6 +12,9 @@ import (
 func (x *Exec) doCall(st *State, in *ssa.Call) []Outcome {
 	com := in.Common()
 	if com.IsInvoke() {
+		if outs, ok := x.invokeCall(st, in); ok {
+			return outs
+		}
 		return x.dynamicCall(st, in, fmt.Sprintf("interface method %s.%s", com.Value.Type(), com.Method.Name()))
 	}
 	callee := x.val(st, com.Value)
@@ -63,6 +66,65 @@ func (x *Exec) dynApp(sig *types.Signature, fv *Term, args []*Term) ([]*Term, bo
 		out = append(out, App(fn, rs, append([]*Term{fv}, args...)...))
 	}
 	return out, true
+}
+
+// invokeApp: a call of an interface method is an uninterpreted function of the
+// receiver value and the arguments, one function per result (assumption:
+// interface methods are functions of receiver and arguments and do not write
+// caller-visible memory; listed).
+func (x *Exec) invokeApp(recvT types.Type, m *types.Func, recv *Term, args []*Term) ([]*Term, []types.Type, bool) {
+	sig := m.Type().(*types.Signature)
+	if sig.Variadic() || sig.Results().Len() == 0 {
+		return nil, nil, false
+	}
+	name := "inv_" + sanitize(types.TypeString(recvT, nil)) + "_" + m.Name()
+	ps := []string{string(recv.Sort)}
+	for i := 0; i < sig.Params().Len(); i++ {
+		s := x.ti.SortOf(sig.Params().At(i).Type())
+		if i >= len(args) || args[i].Sort != s {
+			return nil, nil, false
+		}
+		ps = append(ps, string(s))
+	}
+	var out []*Term
+	var tys []types.Type
+	for i := 0; i < sig.Results().Len(); i++ {
+		rt := sig.Results().At(i).Type()
+		rs := x.ti.SortOf(rt)
+		fn := fmt.Sprintf("%s_%d", name, i)
+		x.declareFun(fn, fmt.Sprintf("(declare-fun %s (%s) %s)", fn, strings.Join(ps, " "), rs))
+		out = append(out, App(fn, rs, append([]*Term{recv}, args...)...))
+		tys = append(tys, rt)
+	}
+	return out, tys, true
+}
+
+func (x *Exec) invokeCall(st *State, in *ssa.Call) ([]Outcome, bool) {
+	com := in.Common()
+	rv, ok := x.val(st, com.Value).(TV)
+	if !ok {
+		return nil, false
+	}
+	var ats []*Term
+	for _, a := range com.Args {
+		tv, ok := x.val(st, a).(TV)
+		if !ok {
+			return nil, false
+		}
+		ats = append(ats, tv.T)
+	}
+	rs, tys, ok := x.invokeApp(com.Value.Type(), com.Method, rv.T, ats)
+	if !ok {
+		return nil, false
+	}
+	x.assumeNote("calls of interface methods are functions of the receiver value and the arguments and do not modify memory visible to the caller")
+	var vals []Value
+	for i, r := range rs {
+		st.assume(x.ti.WF(r, tys[i], st.alloc)...)
+		vals = append(vals, TV{r, tys[i]})
+	}
+	x.noteErrs(st, com.Signature(), vals)
+	return []Outcome{{st, vals}}, true
 }
 
 func (x *Exec) dynamicCall(st *State, in *ssa.Call, what string) []Outcome {
@@ -646,6 +708,13 @@ func (x *Exec) appendCall(st *State, in *ssa.Call, args []Value) []Outcome {
 				And(Implies(inOld, Eq(Select(na, j), Select(oldArr, Add(off, j)))),
 					Implies(inNew, Eq(Select(na, j), get(st, Sub(j, ln)))))}, Pats: []*Term{Select(na, j)}})
 			st.heap[key] = Store(h, ref, na)
+		}
+		// the same copy fact, triggered from the old array's side (absolute index)
+		if v, ok := ln.IntVal(); !ok || v.Sign() != 0 {
+			x.counter++
+			ja := Atom(fmt.Sprintf("a!c%d", x.counter), SInt)
+			st.assume(&Term{Op: "forall", Sort: SBool, Bound: []*Term{ja}, Args: []*Term{
+				Implies(And(Le(off, ja), Lt(ja, Add(off, ln))), Eq(Select(na, Sub(ja, off)), Select(oldArr, ja)))}, Pats: []*Term{Select(oldArr, ja)}})
 		}
 		// the rest of the new backing array is zero
 		x.counter++
